@@ -320,3 +320,34 @@ def path_avoiding(mir, start_blocks, is_marker_block, from_after=None):
             prev[s] = b
             work.append(s)
     return None
+
+
+def path_avoiding_to(mir, start_blocks, is_marker_block, is_target_block):
+    """Like path_avoiding, but the goal is any block for which is_target_block holds (checked before the marker test of that
+    block's own statements is relevant: a target block that is itself a marker counts as reached only if the target event comes
+    first - callers split such cases).  Returns a witness path or None."""
+    bl = mir["blocks"]
+    prev = {}
+    work = []
+    for s in start_blocks:
+        if s is None or bl[s]["cleanup"]:
+            continue
+        prev[s] = None
+        work.append(s)
+    while work:
+        b = work.pop(0)
+        if is_target_block(b, bl[b]):
+            path = []
+            x = b
+            while x is not None:
+                path.append(x)
+                x = prev[x]
+            return list(reversed(path))
+        if is_marker_block(b, bl[b]):
+            continue
+        for s in succs(bl[b]["term"]):
+            if s in prev or bl[s]["cleanup"]:
+                continue
+            prev[s] = b
+            work.append(s)
+    return None
